@@ -206,7 +206,8 @@ def set_evolutions(label, evolutions, app_deps=None):
                 fn = ('%s_%s.sql' % (alias, e['label'])) if alias else ('%s.sql' % e['label'])
                 with open(os.path.join(edir, fn), 'w') as f:
                     f.write(''.join(line + '\n' for line in lines))
-            continue
+            if 'mutations' not in e:
+                continue
         m = types.ModuleType('%s.evolutions.%s' % (label, e['label']))
         m.MUTATIONS = list(e['mutations'])
         for k in ('after_evolutions', 'before_evolutions', 'after_migrations', 'before_migrations'):
